@@ -28,6 +28,9 @@ def reduce_pcs(pcs):
 
 
 def run(rep, prog, tier):
+    from .hidden import no_hidden_state
+    rep.rule('R19.state', 'no hidden state in the anchored modules: no function writes a module-level object, no caching decorator / cached property')
+    no_hidden_state(rep, 'R19.state', prog, ['Network/network.py', 'Circuit/circuit.py', 'Circuit/components.py', 'Circuit/dump_load.py', 'Network/loaders.py', 'Network/elements.py', 'SignalProcessing/periodic_functions.py', 'SimpleSimulation/schematic.py', 'SimpleSimulation/errors.py'])
     rep.rule('R19.guard', 'for every component-constructor parameter named R G C L w P V_ref, every returning path has passed a raising guard equivalent to param < 0 (own body or a callee it always reaches)')
     rep.rule('R19.load', 'elm.load rejects a missing / non-positive / doubly given reference value')
     rep.rule('R19.invariants', 'Network.__post_init__ / Circuit.__post_init__ raise under the reference-node, uniqueness and single-ground guards on every non-trivial path')
@@ -312,7 +315,7 @@ def query_ids(rep, prog):
                                 if idname in argn and ('zero' in fnm or 'ground' in fnm or 'reference' in fnm):
                                     v = f'is the reference node ({fnm}())'
                         elif step[0] in ('stmt', 'return', 'loop'):
-                            node = step[1].iter if step[0] == 'loop' else step[1]
+                            node = step[1]        # a loop validates like the comprehension it stands for (iterable and body)
                             v = v or _validates(node, idname)
                         if v: break
                     if not v:
